@@ -14,3 +14,12 @@ func (res *InputChan) VerifBuffered() (buffer, backlog []tla.Value) {
 
 // VerifLocked tells whether the shared variable's lock is currently held by some localShared handle.
 func (sv *LocalSharedManager) VerifLocked() bool { return len(sv.lockCh) > 0 }
+
+// VerifC01State is a read-only view of the 2PC variable behind a receiver: current and last committed value and
+// whether a critical section is open (harness C01).
+func (rcvr *TwoPCReceiver) VerifC01State() (value, oldValue tla.Value, inCriticalSection bool) {
+	t := rcvr.twopc
+	t.enterMutex("VerifC01State", read)
+	defer t.leaveMutex("VerifC01State", read)
+	return t.value, t.oldValue, t.criticalSectionState != notInCriticalSection
+}
